@@ -131,10 +131,10 @@ def resolve(world, cur, arg, record=None):
             return arg[1]
         coll = _raw(cur, arg[1])
         if tag == "$key":
-            keys = list(coll.keys()) if coll is not None and hasattr(coll, "keys") else []
+            keys = _stable(coll.keys(), coll) if coll is not None and hasattr(coll, "keys") else []
             return keys[arg[2] % len(keys)] if keys else KEYS[arg[2] % len(KEYS)]
         if tag == "$item":
-            items = list(coll.values()) if isinstance(coll, dict) else (list(coll) if coll is not None else [])
+            items = list(coll.values()) if isinstance(coll, dict) else (_stable(coll, coll) if coll is not None else [])
             if not items:
                 return 0
             v = copy.deepcopy(items[arg[2] % len(items)])  # an equal but distinct object, owned by the caller
@@ -146,6 +146,15 @@ def resolve(world, cur, arg, record=None):
     if record is not None and (isinstance(v, (list, dict, set)) or hasattr(v, "__spec_class__") or hasattr(v, "_dict")):
         record.append(v)
     return v
+
+
+def _stable(items, coll):
+    """Set-like containers have no defined order (their iteration order depends on object ids):
+    selectors index them in a canonical order so that a case is a pure function of its JSON."""
+    items = list(items)
+    if isinstance(coll, (set, frozenset)) or (hasattr(coll, "_dict") and not hasattr(coll, "_list")):
+        return sorted(items, key=repr)
+    return items
 
 
 def _raw(obj, attr):
@@ -432,7 +441,7 @@ def locate(cur, path):
             obj = getattr(obj, step[1])
         else:
             coll = getattr(obj, step[1])
-            items = list(coll.values()) if isinstance(coll, dict) else list(coll)
+            items = list(coll.values()) if isinstance(coll, dict) else _stable(coll, coll)
             if not items:
                 raise LookupError("empty")
             obj = items[step[2] % len(items)]
